@@ -1,6 +1,7 @@
 (* C18/Property.v — property theorems only. *)
 From Coq Require Import String List Bool.
-From Verif Require Import Base.Str C18.Model C18.ModelV0 C18.Spec C18.Codec C18.Key C18.Reflect C18.Proofs.
+From Verif Require Import Base.Str Base.Py Base.Py2 C18.Model C18.ModelV0 C18.Spec C18.Codec C18.Key C18.Reflect C18.Proofs C18.Source2.
+From VerifGen Require Import C18Src2.
 Import ListNotations.
 
 (* C18, identifier store (code after 331c8f06 / afb60e41 / 9057a062): for EVERY history of IdentDB operations
@@ -149,3 +150,144 @@ Theorem c18_eptid_reflect : forall obs h,
   /\ (same_extras_b h = true <-> same_extras h).
 Proof. exact eptid_reflect. Qed.
 Print Assumptions c18_eptid_reflect.
+
+(* ==================================================================================================
+   Source tie, translator v2: coq/gen/C18Src2.v is re-translated from the CURRENT text of /repo/src/saml2/ident.py on
+   every run (harness/c18.py:regenerate_tables).  Each theorem: the translated function applied to the encoding of a
+   model input is the encoding of what the model function it mirrors yields, for ALL inputs of the stated domain.
+   Calls of functions that are not translated in place are arguments with the stated hypotheses (C18/Source2.v shows
+   each set satisfiable); db_ok: the dict has no key "__class__" (the embedding's mark of an object). *)
+
+Theorem c18_source2_code : forall n, src2_code quote_f (enc_nid n) = PStr (code n).
+Proof. exact src2_code_is_model. Qed.
+Print Assumptions c18_source2_code.
+
+Theorem c18_source2_decode : forall txt,
+  decodable txt = true -> src2_decode unquote_f (PStr txt) = enc_decoded (decode txt).
+Proof. exact src2_decode_is_model. Qed.
+Print Assumptions c18_source2_decode.
+
+Theorem c18_source2_store : forall cfg d u n t,
+  db_ok d = true -> u <> "__class__"%string -> t <> "__class__"%string -> txt n = Some t ->
+  src2_store quote_f (enc_self cfg d) (PStr u) (enc_nid n) = PList [PNone; enc_self cfg (store_db d u n t)].
+Proof. exact src2_store_is_model. Qed.
+Print Assumptions c18_source2_store.
+
+Theorem c18_source2_find_local_id : forall cfg d n,
+  db_ok d = true -> src2_find_local_id (enc_self cfg d) (enc_nid n) = enc_found (find_local_id d n).
+Proof. exact src2_find_local_id_is_model. Qed.
+Print Assumptions c18_source2_find_local_id.
+
+Theorem c18_source2_match_local_id : forall decode_ : pyval -> pyval,
+  (forall s, decode_ (PStr s) = enc_decoded (decode s)) ->
+  forall cfg d u spq_arg nq_arg,
+    db_ok d = true ->
+    src2_match_local_id decode_ (enc_self cfg d) (PStr u) (enc_opt spq_arg) (enc_opt nq_arg)
+    = enc_res (match_local_id d u spq_arg nq_arg).
+Proof. exact src2_match_local_id_is_model. Qed.
+Print Assumptions c18_source2_match_local_id.
+
+Theorem c18_source2_handle_name_id_mapping_request :
+  forall (decode_ : pyval -> pyval) (construct_ : pyval -> pyval -> pyval -> pyval) cfg d p fresh,
+  (forall s, decode_ (PStr s) = enc_decoded (decode s)) ->
+  (forall id, construct_ (enc_self cfg d) (PStr id) (enc_pol p)
+              = enc_out (snd (construct_nameid cfg d id None None (Some p) None fresh))) ->
+  forall n,
+    db_ok d = true ->
+    src2_name_id_mapping decode_ construct_ (enc_self cfg d) (enc_nid n) (enc_pol p)
+    = enc_out (snd (name_id_mapping cfg d n p fresh)).
+Proof. exact src2_name_id_mapping_is_model. Qed.
+Print Assumptions c18_source2_handle_name_id_mapping_request.
+
+Theorem c18_source2_nim_args : forall lp_format : pyval -> pyval -> pyval,
+  (forall f requester, lp_format (enc_lp (Some f)) requester = PStr f) ->
+  forall cfg d lp spq_arg pol nq_arg,
+    src2_nim_args lp_format (enc_self cfg d) (enc_lp lp) (enc_opt spq_arg) (enc_pol_opt pol) (enc_opt nq_arg)
+    = enc_args (resolve cfg lp spq_arg pol nq_arg).
+Proof. exact src2_nim_args_is_model. Qed.
+Print Assumptions c18_source2_nim_args.
+
+(* remove_remote / store are ARBITRARY functions: the handler hands them exactly these arguments, in this order *)
+Theorem c18_source2_handle_manage_name_id_request :
+  forall (remove_ : pyval -> pyval -> pyval) (store_ : pyval -> pyval -> pyval -> pyval) cfg d n newid enc term,
+    db_ok d = true ->
+    src2_manage_name_id remove_ store_ (enc_self cfg d) (enc_nid n) (enc_newid newid)
+      (enc_flag "NewEncryptedID" enc) (enc_flag "Terminate" term)
+    = match manage_target n newid enc term with
+      | None => enc_nid n
+      | Some n' =>
+          py_bind (remove_ (enc_self cfg d) (enc_nid n)) (fun _ =>
+          py_bind (store_ (enc_self cfg d) (enc_found (find_local_id d n)) (enc_nid n')) (fun _ => enc_nid n'))
+      end.
+Proof. exact src2_manage_name_id_is_model. Qed.
+Print Assumptions c18_source2_handle_manage_name_id_request.
+
+Theorem c18_source2_handle_manage_name_id_request_answer :
+  forall (remove_ : pyval -> pyval -> pyval) (store_ : pyval -> pyval -> pyval -> pyval) cfg d n,
+  remove_ (enc_self cfg d) (enc_nid n) = match remove_remote d n with Ok _ => PNone | Err e => PExc (exc_name e) end ->
+  (forall u n', store_ (enc_self cfg d) (PStr u) (enc_nid n') = PNone) ->
+  forall newid enc term,
+    db_ok d = true ->
+    src2_manage_name_id remove_ store_ (enc_self cfg d) (enc_nid n) (enc_newid newid)
+      (enc_flag "NewEncryptedID" enc) (enc_flag "Terminate" term)
+    = enc_out (snd (manage_name_id d n newid enc term)).
+Proof. exact src2_manage_name_id_answer. Qed.
+Print Assumptions c18_source2_handle_manage_name_id_request_answer.
+
+(* store is an ARBITRARY function: the new NameID is handed to it together with the user it was asked for *)
+Theorem c18_source2_get_nameid :
+  forall (decode_ : pyval -> pyval) (create_ : pyval -> pyval -> pyval -> pyval -> pyval)
+         (store_ : pyval -> pyval -> pyval -> pyval) fresh,
+  (forall s, decode_ (PStr s) = enc_decoded (decode s)) ->
+  (forall self f q s, create_ self f q s = PStr fresh) ->
+  forall cfg d u f spq_arg nq_arg,
+    db_ok d = true ->
+    src2_get_nameid decode_ create_ store_ (enc_self cfg d) (PStr u) (PStr f) (enc_opt spq_arg) (enc_opt nq_arg)
+    = if String.eqb f NF_PERSISTENT
+      then match match_local_id d u spq_arg nq_arg with
+           | Err e => PExc (exc_name e)
+           | Ok (Some n) => enc_nid n
+           | Ok None => issue_call store_ (enc_self cfg d) u (snd (issue cfg d u f spq_arg nq_arg fresh))
+           end
+      else issue_call store_ (enc_self cfg d) u (snd (issue cfg d u f spq_arg nq_arg fresh)).
+Proof. exact src2_get_nameid_is_model. Qed.
+Print Assumptions c18_source2_get_nameid.
+
+Theorem c18_source2_get_nameid_answer :
+  forall (decode_ : pyval -> pyval) (create_ : pyval -> pyval -> pyval -> pyval -> pyval)
+         (store_ : pyval -> pyval -> pyval -> pyval) fresh,
+  (forall s, decode_ (PStr s) = enc_decoded (decode s)) ->
+  (forall self f q s, create_ self f q s = PStr fresh) ->
+  (forall self u n, store_ self (PStr u) (enc_nid n) = PNone) ->
+  forall cfg d u f spq_arg nq_arg,
+    db_ok d = true ->
+    src2_get_nameid decode_ create_ store_ (enc_self cfg d) (PStr u) (PStr f) (enc_opt spq_arg) (enc_opt nq_arg)
+    = enc_out (snd (get_nameid cfg d u f spq_arg nq_arg fresh)).
+Proof. exact src2_get_nameid_answer. Qed.
+Print Assumptions c18_source2_get_nameid_answer.
+
+Theorem c18_source2_transient_nameid :
+  forall (decode_ : pyval -> pyval) (create_ : pyval -> pyval -> pyval -> pyval -> pyval)
+         (store_ : pyval -> pyval -> pyval -> pyval) fresh,
+  (forall s, decode_ (PStr s) = enc_decoded (decode s)) ->
+  (forall self f q s, create_ self f q s = PStr fresh) ->
+  (forall self u n, store_ self (PStr u) (enc_nid n) = PNone) ->
+  forall cfg d u spq_arg nq_arg,
+    db_ok d = true ->
+    src2_transient_nameid decode_ create_ store_ (enc_self cfg d) (PStr u) (enc_opt spq_arg) (enc_opt nq_arg)
+    = enc_out (snd (transient_nameid cfg d u spq_arg nq_arg fresh)).
+Proof. exact src2_transient_nameid_answer. Qed.
+Print Assumptions c18_source2_transient_nameid.
+
+Theorem c18_source2_persistent_nameid :
+  forall (decode_ : pyval -> pyval) (create_ : pyval -> pyval -> pyval -> pyval -> pyval)
+         (store_ : pyval -> pyval -> pyval -> pyval) fresh,
+  (forall s, decode_ (PStr s) = enc_decoded (decode s)) ->
+  (forall self f q s, create_ self f q s = PStr fresh) ->
+  (forall self u n, store_ self (PStr u) (enc_nid n) = PNone) ->
+  forall cfg d u spq_arg nq_arg,
+    db_ok d = true ->
+    src2_persistent_nameid decode_ create_ store_ (enc_self cfg d) (PStr u) (enc_opt spq_arg) (enc_opt nq_arg)
+    = enc_out (snd (persistent_nameid cfg d u spq_arg nq_arg fresh)).
+Proof. exact src2_persistent_nameid_answer. Qed.
+Print Assumptions c18_source2_persistent_nameid.
